@@ -13,6 +13,7 @@ import HapModel.Drv.C15
 import HapModel.Drv.C16
 import HapModel.Drv.C17
 import HapModel.Drv.C18
+import HapModel.Drv.C19
 import HapModel.Drv.C20
 namespace Drv
 open Lean
@@ -49,6 +50,8 @@ def dispatch1 (op : String) (j : Json) : R Json :=
   | "uniqNames" => hUniqNames j
   | "noiseVar" => hNoiseVar j
   | "ldPlan" => hLdPlan j
+  | "splitLines" => hSplitLines j
+  | "cliParse" => hCliParse j
   | _ => throw s!"unknown op {op}"
 
 /-- {"op":"batch","reqs":[…]} → {"resps":[…]} -/
